@@ -310,20 +310,51 @@ theorem dropInactive_inv {s s' : State} {pid : Nat} (hsh : inactiveSettleShapeOk
     · have sp := burnDeposits_spec (by simpa using hi.bal) h
       exact key _ s' ⟨sp.1, sp.2.1, sp.2.2.1⟩ rfl rfl
 
-theorem runProposalMsgs_frame (hc : execInCacheCtx = true) (ms : List Msg) (s : State) :
-    (runProposalMsgs ms s).1.props = s.props ∧ (runProposalMsgs ms s).1.deps = s.deps ∧ (runProposalMsgs ms s).1.gov = s.gov := by
+theorem execPrefix_frame : ∀ (ms : List Msg) (s : State),
+    (execPrefix ms s).props = s.props ∧ (execPrefix ms s).deps = s.deps ∧ (execPrefix ms s).gov = s.gov ∧
+    (execPrefix ms s).inactive = s.inactive ∧ (execPrefix ms s).active = s.active ∧ (execPrefix ms s).time = s.time ∧
+    (execPrefix ms s).params = s.params ∧ (execPrefix ms s).nextId = s.nextId ∧ (execPrefix ms s).votes = s.votes := by
+  intro ms
+  induction ms with
+  | nil => intro s; exact ⟨rfl, rfl, rfl, rfl, rfl, rfl, rfl, rfl, rfl⟩
+  | cons m r ih =>
+    intro s
+    simp only [execPrefix]
+    split
+    · rename_i s1 h1
+      have f1 := execMsg_frame h1
+      have f2 := ih s1
+      exact ⟨f2.1.trans f1.1, f2.2.1.trans f1.2.1, f2.2.2.1.trans f1.2.2.1, f2.2.2.2.1.trans f1.2.2.2.1,
+        f2.2.2.2.2.1.trans f1.2.2.2.2.1, f2.2.2.2.2.2.1.trans f1.2.2.2.2.2.1, f2.2.2.2.2.2.2.1.trans f1.2.2.2.2.2.2.1,
+        f2.2.2.2.2.2.2.2.1.trans f1.2.2.2.2.2.2.2.1, f2.2.2.2.2.2.2.2.2.trans f1.2.2.2.2.2.2.2.2⟩
+    · exact ⟨rfl, rfl, rfl, rfl, rfl, rfl, rfl, rfl, rfl⟩
+
+/-- whatever the messages of a passed proposal do, they touch neither the proposals, the deposits, the module balance,
+the queues, the parameters nor the votes (whether or not the error test after the loop sees the handler's error) -/
+theorem runProposalMsgs_same (hc : execInCacheCtx = true) (ms : List Msg) (s : State) :
+    (runProposalMsgs ms s).1.props = s.props ∧ (runProposalMsgs ms s).1.deps = s.deps ∧ (runProposalMsgs ms s).1.gov = s.gov ∧
+    (runProposalMsgs ms s).1.inactive = s.inactive ∧ (runProposalMsgs ms s).1.active = s.active ∧
+    (runProposalMsgs ms s).1.time = s.time ∧ (runProposalMsgs ms s).1.params = s.params ∧
+    (runProposalMsgs ms s).1.nextId = s.nextId ∧ (runProposalMsgs ms s).1.votes = s.votes := by
   unfold runProposalMsgs
   simp only [hc, if_true]
   split
-  · rename_i s' h
-    have := execMsgs_frame _ _ _ h
-    exact ⟨this.1, this.2.1, this.2.2.1⟩
-  · exact ⟨rfl, rfl, rfl⟩
+  · split
+    · rename_i s' h
+      exact execMsgs_frame _ _ _ h
+    · exact ⟨rfl, rfl, rfl, rfl, rfl, rfl, rfl, rfl, rfl⟩
+  · exact execPrefix_frame ms s
+
+theorem runProposalMsgs_frame (hc : execInCacheCtx = true) (ms : List Msg) (s : State) :
+    (runProposalMsgs ms s).1.props = s.props ∧ (runProposalMsgs ms s).1.deps = s.deps ∧ (runProposalMsgs ms s).1.gov = s.gov := by
+  have := runProposalMsgs_same hc ms s
+  exact ⟨this.1, this.2.1, this.2.2.1⟩
 
 theorem finishTally_inv {s s' : State} {pid : Nat} {p : Proposal} {passes burn : Bool} {res : Nat × Nat × Nat × Nat}
     (hsh : settleShapeOk = true) (hc : execInCacheCtx = true)
     (hi : Inv s) (hp : findProp s.props pid = some p) (h : finishTally passes burn res p pid s = .ok s') : Inv s' := by
   unfold finishTally at h
+  simp only [hsh, Bool.not_true, Bool.false_and, Bool.false_eq_true, if_false] at h
   · have hpid : p.id = pid := findProp_id hp
     simp only [hsh, if_true] at h
     by_cases hkeep : (p.expedited && !passes) = true
